@@ -412,6 +412,14 @@ def run_shard(shard):
                     res["evaluations"] += 1
                     res["sessions_with_fault_delivered"] += 1 if o.get("delivered_faults") else 0
                     record([f], [slot, "glued"] if glued else [slot], o["fails"])
+        # two faults in one session: each fault with its successor in the catalogue (thorough: all ordered pairs)
+        for k, f1 in enumerate(cat):
+            f2 = cat[(k + 1) % len(cat)]
+            for slots in ((1, 1), (1, 3)):
+                o = run_session(variant, transport, [f1, f2], list(slots))
+                res["evaluations"] += 1
+                res["sessions_with_fault_delivered"] += 1 if o.get("delivered_faults") else 0
+                record([f1, f2], list(slots), o["fails"])
     else:
         for f1, f2 in itertools.permutations(cat, 2):
             for slots in ((1, 1), (1, 3), (3, 3)):
